@@ -105,7 +105,7 @@ def probe_invariance(name, D, N, order, seed):
     return {"ok": not bad, "bad": bad, "all": res}
 
 
-def probe_forced_invariance(D, seed, constant=True):
+def probe_forced_invariance(D, seed, constant=True, include_init=False):
     """steppers with an auxiliary input (ForcedStepper) through rollout / repeat, jit and vmap: scanned = eager loop,
     rollout(vmap(s)) = vmap(rollout(s)) with axes exchanged, a member depends only on its own forcing — for a
     multi-channel state (leading aux axis > 1) and for batched members with DIFFERENT forcings"""
@@ -130,8 +130,10 @@ def probe_forced_invariance(D, seed, constant=True):
             out.append(np.asarray(cur))
         return np.stack(out)
     ref = np.stack([eager(b) for b in range(B)])                     # (B, n, C, ...)
+    if include_init:                                                  # the initial state in front: (B, n+1, C, ...)
+        ref = np.concatenate([u0[:, None], ref], axis=1)
     res = {}
-    ro = ex.rollout(fs, n, takes_aux=True, constant_aux=constant)
+    ro = ex.rollout(fs, n, takes_aux=True, constant_aux=constant, include_init=include_init)
     rp = ex.repeat(fs, n, takes_aux=True, constant_aux=constant)
     res["rollout_vs_loop"] = float(np.max(np.abs(np.asarray(ro(ju[0], jf[0])) - ref[0])))
     res["jit_rollout_vs_loop"] = float(np.max(np.abs(np.asarray(eqx.filter_jit(ro)(ju[1], jf[1])) - ref[1])))
@@ -140,13 +142,13 @@ def probe_forced_invariance(D, seed, constant=True):
     # rolling out the mapped stepper: the aux of the scan is (n, B, ...) when it is consumed in order
     vfs = jax.vmap(fs)
     aux_b = jf if constant else jnp.swapaxes(jf, 0, 1)
-    rb = np.asarray(ex.rollout(vfs, n, takes_aux=True, constant_aux=constant)(ju, aux_b))      # (n, B, ...)
+    rb = np.asarray(ex.rollout(vfs, n, takes_aux=True, constant_aux=constant, include_init=include_init)(ju, aux_b))      # (n, B, ...)
     res["rollout_vmap_exchange"] = float(np.max(np.abs(np.swapaxes(rb, 0, 1) - ref)))
     res["repeat_vmap_vs_loop"] = float(np.max(np.abs(np.asarray(ex.repeat(vfs, n, takes_aux=True, constant_aux=constant)(ju, aux_b)) - ref[:, -1])))
     f2 = np.array(f)
     f2[B - 1] = f2[B - 1] * 2.0 + 0.1
     aux_b2 = jnp.asarray(f2) if constant else jnp.swapaxes(jnp.asarray(f2), 0, 1)
-    rb2 = np.asarray(ex.rollout(vfs, n, takes_aux=True, constant_aux=constant)(ju, aux_b2))
+    rb2 = np.asarray(ex.rollout(vfs, n, takes_aux=True, constant_aux=constant, include_init=include_init)(ju, aux_b2))
     res["member_independent_of_other_forcing"] = float(np.max(np.abs(rb2[:, 0] - rb[:, 0])))
     tol = 1e-10 * (float(np.max(np.abs(ref))) + 1e-300)
     bad = {k: v for k, v in res.items() if not v <= tol}
@@ -307,13 +309,13 @@ def oracle(ctx, deep):
                 fails.append({"key": f"C06:{k}:{name}", "what": f"{name} (D={D}, order={order}): '{k}' differs from the eager one-at-a-time evaluation by {r['bad'][k]:.2e}",
                               "probe": "invariance", "args": {"name": name, "D": D, "N": N, "order": order, "seed": ctx.seed + idx}, "observed": r})
     for D in (1, 2) if not deep else (1, 2, 3):
-        for constant in (True, False):
-            r = probe_forced_invariance(D, ctx.seed + D, constant)
-            ctx.count(("oracle_forced_invariance", D, constant))
+        for constant, include_init in ((True, False), (False, False), (False, True), (True, True)):
+            r = probe_forced_invariance(D, ctx.seed + D, constant, include_init)
+            ctx.count(("oracle_forced_invariance", D, constant, include_init))
             if not r["ok"]:
                 for k in r["bad"]:
-                    fails.append({"key": f"C06:forced:{k}", "what": f"ForcedStepper through rollout/repeat (D={D}, constant_aux={constant}): '{k}' differs from the eager one-at-a-time loop by {r['bad'][k]:.2e}",
-                                  "probe": "forced_invariance", "args": {"D": D, "seed": ctx.seed + D, "constant": constant}, "observed": r})
+                    fails.append({"key": f"C06:forced:{k}", "what": f"ForcedStepper through rollout/repeat (D={D}, constant_aux={constant}, include_init={include_init}): '{k}' differs from the eager one-at-a-time loop by {r['bad'][k]:.2e}",
+                                  "probe": "forced_invariance", "args": {"D": D, "seed": ctx.seed + D, "constant": constant, "include_init": include_init}, "observed": r})
     for case in SWEEPS:
         r = probe_ctor_sweep(case, ctx.seed)
         ctx.count(("oracle_sweep", case))
